@@ -80,6 +80,11 @@ package pongo2
 //@   ensures {C03} @other-list-untouched mapdom(set.bannedTags) == old(mapdom(set.bannedTags))
 //@   ensures {C03} @same-maps set.bannedTags == old(set.bannedTags) && set.bannedFilters == old(set.bannedFilters) && set.firstTemplateCreated == old(set.firstTemplateCreated)
 
+// ... and nothing is compiled by a set whose ban lists are still open: the constructors of Template demand the freeze
+//@ func newTemplate
+//@   requires {C03} @only-a-frozen-set-compiles set.firstTemplateCreated
+//@ func newTemplateString
+//@   requires {C03} @only-a-frozen-set-compiles set.firstTemplateCreated
 // every way of creating a template freezes the ban lists
 //@ func (*TemplateSet).FromString
 //@   ensures {C03} @freezes set.firstTemplateCreated
@@ -188,6 +193,8 @@ package pongo2
 //@   at (*NodeWrapper).Execute requires {C12} @body-in-child arg1 == withctx && withctx != ctx
 //@ func (*tagMacroNode).call
 //@   at mapupdate requires {C12,C13} @own-scope m != ctx.Private && m != ctx.Public && fresh(m)
+//@   invariant 0 {C12,C13} @every-parameter-is-bound-even-without-a-default forall k string :: seen[k] ==> has(argsCtx, k)
+//@   at (Context).Update requires {C12,C13} @all-parameters-shadow-outer-names arg0 == macroCtx.Private && arg1 == argsCtx && (forall k string :: has(node.args, k) ==> has(argsCtx, k))
 //@   at (*NodeWrapper).Execute requires {C12,C13} @body-in-child arg1 == macroCtx && macroCtx != ctx
 //@ func (tagBlockInformation).Super
 //@   at mapupdate requires {C12} @own-scope m == superCtx.Private && m != t.ctx.Private
@@ -196,6 +203,15 @@ package pongo2
 //@   at mapupdate requires {C12} @sets-its-name m == ctx.Private && k == node.name
 //@ func (*tagIncludeNode).Execute
 //@   at mapupdate requires {C12} @own-context m == includeCtx && m != ctx.Private && m != ctx.Public
+// the included template sees the includer's names with the same shadowing: the caller's context first, the names set
+// by tags on top of it
+//@   at (Context).Update#0 requires {C08,C12} @callers-names-first arg0 == includeCtx && arg1 == ctx.Public
+//@   at (Context).Update#1 requires {C08,C12} @names-set-by-tags-on-top arg0 == includeCtx && arg1 == ctx.Private
+// a failure of the nested execution (an execution error or an error of the writer) is handed on, never swallowed
+//@ func (*tagIncludeNode).wrapError
+//@   ensures {C14} @a-failure-stays-a-failure (err != nil && !(typeis(err, "*Error") && unbox(err, "*Error") == nil)) ==> r0 != nil
+//@ func (*tagIncludeNode).Execute
+//@   at (*tagIncludeNode).wrapError requires {C14} @the-error-of-the-nested-execution arg2 != nil && arg2 == lastresult("(*Template).ExecuteWriter")
 
 // ---- composition through loaders (C11) ----
 // Error.RawLine is a diagnostic helper outside the engine's compile/execute paths (reads the source line for messages)
@@ -481,6 +497,8 @@ package pongo2
 //@   invariant 0 {C01,C09} @one-wrapper-per-condition len(ifNode.conditions) >= 1 && len(ifNode.wrappers) + 1 >= len(ifNode.conditions)
 //@ func (*Template).newContextForExecution
 //@   ensures {C01} @error-type r2 != nil ==> typeis(r2, "*Error")
+//@   invariant 2 {C12} @no-checked-key-is-a-macro-of-this-template forall k string :: seen[k] ==> !has(tpl.exportedMacros, k)
+//@   at newExecutionContext requires {C12} @a-context-key-never-shadows-a-macro-of-this-template (context != nil && len(newContext) > 0) ==> (forall k string :: has(arg1, k) ==> !has(tpl.exportedMacros, k))
 
 // ---- data filters (C18) ----
 //@ func AsValue
